@@ -25,6 +25,17 @@ def run(out, tier, seed):
                 "result compared with the same call on a fresh copy; (b) 8 (thorough 16) threads share one Arc'd key per backend and run seeded "
                 "programs of the same variants while clones are dropped on other threads; distinct = distinct (backend, mode, thread, position, "
                 "operation); non-trivial = all")
+    # the drivers share keys between threads; if they no longer compile because a key type stopped being Send / Sync, that IS the
+    # property's first clause failing (the compiler's verdict is the observation), not a tool problem
+    try:
+        C.build_harness()
+    except C.ToolError:
+        bo = C.LAST_BUILD_OUTPUT
+        m = re.findall(r"`([^`]*)` cannot be (shared|sent) between threads safely", bo)
+        if m:
+            out.violation({"verdict": "key-type-not-send-sync", "what": sorted(set("%s (%s)" % (t, k) for t, k in m))[:4]}, {"compiler": bo[-3000:]})
+            return
+        raise
     r = C.tlc("MC_Shared", "MC_Shared_thorough.cfg", "mc", "c17-mc", workers=10, timeout=3600)
     C.tlc_must_pass(r, "MC_Shared")
     out.add_tlc(r)
